@@ -32,7 +32,7 @@ impl Prop for C12 {
         "the real binary (built from the working tree with the tree's crypto crate) over the wiring matrix {file argument | stdin} x {-o | stdout} x {-k | KESTREL_KEYRING} x {long | short option names} x {command | alias} x {--opt value | --opt=value} \
          for encrypt, decrypt, password encrypt, password decrypt; inputs: valid files of 0 B, 10 B, 65536 B, 70000 B; invalid: wrong key, corrupted chunk 0 / chunk 1, truncated, trailing byte, missing keyring; keyrings with the sender first / last / absent, with and without a preceding entry whose checksum is wrong; with and without a longer unrelated file already present at the output path; with -k, KESTREL_KEYRING additionally unset / naming a missing file / another keyring / garbage. \
          compared with the Lean CLI model: exit status, delivered bytes (file or stdout), sender line; oracle: exit 0 iff the delivered bytes are the complete original (decrypt) resp. decrypt back to it under the model (encrypt), 'Error:' line iff exit 1. \
-         non-trivial = distinct (operation, input, wiring)".into()
+         the same tool on a terminal (passwords typed, 0..3 wrong ones or mismatching confirmations first) for decrypt (-o and stdout), encrypt, extract-pub, change-pass: exit 0, the delivered bytes, the sender line and the number of retry messages as the Lean terminal model computes them. non-trivial = distinct (operation, input, wiring)".into()
     }
     fn cases(&self, tier: &str, seed: u64) -> Vec<Case> {
         let th = tier == "thorough";
@@ -54,9 +54,11 @@ impl Prop for C12 {
                 v.push(case(&[("op", op.into()), ("w", rng.below(64).to_string()), ("input", inp.into()), ("kr", kr.into()), ("seed", rng.next().to_string())]));
             } }
         }
+        v.extend(crate::props::tty::tty_cases(&crate::props::tty::OPS_C12, tier, seed));
         v
     }
     fn run(&self, c: &Case, m: &mut Model) -> Outcome {
+        if get(c, "kind") == "tty" { return crate::props::tty::run_tty_case(c, m); }
         let mut o = Outcome::default();
         let fx = fixtures();
         let mut rng = Rng::new(get(c, "seed").parse().unwrap_or(0));
